@@ -43,6 +43,12 @@ def build() -> Check:
                 opts = cks[0].data.get("options", {}).get("callback_options") if cks else None
                 if ok_start and not isinstance(opts, Obj):
                     bad.append(("CALLBACK START carries no callback options", t))
+                if ok_start and isinstance(opts, Obj) and dict(t.pc).get("config is None") is False:
+                    # the outcome "timeout" can only be delivered if the configured limits reach the backend unchanged
+                    for fld, own, other in (("timeout_seconds", "config.timeout", "heartbeat"), ("heartbeat_timeout_seconds", "config.heartbeat_timeout", "config.timeout")):
+                        k_ = opts.fields.get(fld).key() if fld in opts.fields else "absent"
+                        if own not in k_ or other in k_.replace(own, "") or any(f_ in k_ for f_ in ("min(", "max(", " or ", " if ")):
+                            bad.append((f"CALLBACK START carries {fld}={k_}, not the configured {own}", t))
                 if t.outcome == "return" and not t.value.key().startswith("op@1.0.callback_details.callback_id"):
                     bad.append((f"returns {t.value.key()} instead of the id in the backend's response", t))
             else:
@@ -131,6 +137,9 @@ def build() -> Check:
                         fnm = o.fields.get("function_name") if isinstance(o, Obj) else None
                         if fnm is None or fnm.key() != "function_name":
                             bad.append((f"START targets {fnm.key() if fnm else None}, not the requested function", t))
+                        tid = o.fields.get("tenant_id") if isinstance(o, Obj) else None
+                        if tid is None or tid.key() not in ("config.tenant_id", "None"):
+                            bad.append((f"START carries tenant {tid.key() if tid else None}, not the configured one", t))
                 if faulty:
                     continue
                 refreshed = dict(t.pc).get("op@1.0.status=?OperationStatus")
